@@ -626,7 +626,10 @@ def c10_job(chk, rng, i):
     if string_first:
         # the program starts on a string (yy_scan_bytes) and goes on with files: at the end of the
         # string yywrap() points yyin at a file and returns 0
-        case["driver"]["init"] = [("open", 0), ("scan_bytes", 1, 0)] + \
+        # (every other time the string is scanned in place, yy_scan_buffer(): memory the scanner
+        # does not own, which yyrestart()/YY_NEW_FILE must still be able to fill from the file)
+        first = ("scan_buffer", 1, 0, True) if (i // 5) % 2 == 1 else ("scan_bytes", 1, 0)
+        case["driver"]["init"] = [("open", 0), first] + \
             [op for op in case["driver"].get("init", []) if op[0] == "begin"]
         case["wrap"] = [("next", 0)] + case["wrap"]
         for inp in inputs:
@@ -648,6 +651,7 @@ def c10_job(chk, rng, i):
         feats.append("soft_end_of_input")
     if string_first:
         feats.append("string_then_files")
+        feats.append("string_then_files:" + case["driver"]["init"][1][0])
     return {"case": case, "configs": [cfg], "inputs": inputs, "skip_if": dangerous,
             "expect_build": std_refusals(tb), "features": feats}
 
